@@ -48,7 +48,7 @@ ASSUMPTIONS = [
     "bytes are modelled as Lean Char values < 256; std::string/std::istringstream/getline behave as specified",
     "operator>> for built-in integers/double/std::string is libstdc++'s classic-locale num_get (modelled, not verified); strtod is correctly rounded",
     "the hostile stream is checked for termination/exception class only (60 s alarm per op)",
-    "model = code with fixes/C12_parserange.patch (and the behaviour-neutral fixes/C12_emptyquote.patch) applied",
+    "the model describes the repaired code (repo commits 27625ff parseRange trailing-text check, deabf63 empty-string test in the quote loop = fixes/C12_*.patch)",
 ]
 TRUSTED = ["g++/libstdc++, ASan/UBSan", "harness/cxx_c12.cc (reference tree, strict dialect recogniser, numeric recognisers) + Driver/C12.lean parsing/printing"]
 
